@@ -5,6 +5,7 @@ package hsms
 import (
 	"context"
 	"errors"
+	"time"
 
 	"github.com/arloliu/go-secs/v2/secs2"
 )
@@ -197,5 +198,39 @@ func VerifC20_AsyncDrain() {
 	} else {
 		vsymAssert(after.send == before.send, "failed-writes-count-no-send")
 		vsymAssert(after.async-before.async+uint64(len(v.e.sendCh)) == uint64(n), "each-failed-write-counts-one-async-error")
+	}
+}
+
+// VerifC20_OverlappingReconnectLoopsVT: two reconnect loops alive at once (a re-dial that comes up
+// and is dropped again before the first loop has returned): the reconnecting gauge stays positive
+// as long as ANY loop runs and is zero when both are gone.
+func VerifC20_OverlappingReconnectLoopsVT() {
+	vsymExpect("checked")
+	v := newVConnection(NotConnectedState)
+	cfg := *v.c.cfg.Load()
+	cfg.reconnectBackoffInitial = time.Second
+	cfg.closeTimeout = time.Second
+	v.c.cfg.Store(&cfg)
+	v.c.cur.Store(nil)
+	gen := v.c.reconnectGen.Load()
+	done1, done2 := false, false
+	go func() { v.c.connectLoop(nil, gen, nil, true); done1 = true }()
+	vsymAdvance(int64(500 * time.Millisecond))
+	vsymAssert(v.c.Metrics().Reconnecting() >= 1, "gauge-positive-while-first-loop-runs")
+	go func() { v.c.connectLoop(nil, gen, nil, true); done2 = true }()
+	vsymAdvance(int64(600 * time.Millisecond)) // t=1.1s: loop 1 has dialled and returned, loop 2 still sleeps
+	vsymReach("checked")
+	vsymAssert(done1 && !done2, "first-loop-finished-second-still-running")
+	e1 := v.c.cur.Load()
+	vsymAssert(v.c.Metrics().Reconnecting() >= 1, "gauge-positive-while-any-reconnect-loop-runs")
+	vsymAdvance(int64(time.Second))
+	vsymAssert(done2, "second-loop-finished")
+	vsymAssert(v.c.Metrics().Reconnecting() == 0, "gauge-zero-when-no-loop-runs")
+	vsymAssert(v.c.Metrics().Reconnects() == 2, "each-successful-redial-counted-once")
+	for _, e := range []*epoch{e1, v.c.cur.Load()} {
+		if e != nil {
+			e.teardown(time.Second)
+			_ = e.wait()
+		}
 	}
 }
